@@ -156,3 +156,10 @@ Definition combine_obs (tab : nat -> list act) (cs : list component) (k : nat)
   : (list Z * bool) * (list Z * list bool) :=
   let '(t1, ses) := setup (combined_setup cs) in
   ((map ev_code (filter visible ses), failed t1), worker_obs tab (repeat (combined_run cs) k)).
+
+(* Timed consequence of the event order ClockA, BodyStart, ..., BodyEnd, ClockB, Recorded
+   (C17_measured_interval), whatever way the body ends: the recorded duration is at least
+   the time the body spent by its own clock, and at most the time the whole Run call took by
+   the caller's clock. *)
+Definition measured_ok (body_ns recorded_ns outer_ns : Z) : bool :=
+  (body_ns <=? recorded_ns) && (recorded_ns <=? outer_ns).
